@@ -65,10 +65,16 @@ def gen_seq(ctx, k):
     sc.add(*cfggen.bus_lines(cfg, nodes), 'bus brackets 1', f'start {d} 0', 'quiesce', 'snap s0')
     n = rng.randrange(10, 80)
     for i in range(n):
-        g = gen_bm(rng, m, cfg)
-        if not g:
+        msgs = []
+        for _ in range(1 if rng.random() < 0.8 else rng.randrange(2, 4)):
+            g = gen_bm(rng, m, cfg)
+            if g:
+                msgs.append(model.build_msg(g[0], rng.choice([0, 0, rng.randrange(256)]), g[1], g[2]))
+        if not msgs:
             break
-        sc.add(up(model.build_msg(g[0], 0, g[1], g[2])), 'quiesce', f'snap s{i + 1}')
+        sc.add(up(*msgs), 'quiesce', f'snap s{i + 1}')
+        if rng.random() < 0.08:
+            sc.add(up(*msgs), 'quiesce', f'snap r{i + 1}')          # the detector repeats its report
     sc.add('stop')
     return sc.text(), cfg, nodes
 
